@@ -17,6 +17,8 @@ _TAG = "" if REPO == "/repo" else "_" + hashlib.sha1(REPO.encode()).hexdigest()[
 IMPL = os.path.join(BUILD, "cgns" + _TAG)        # a scratch worktree (VERIF_REPO=...) gets its own build dir
 HDIR = os.path.join(BUILD, "h" + _TAG)
 SAN_FLAGS = "-O1 -g -fno-omit-frame-pointer -fsanitize=address,undefined -fno-sanitize-recover=undefined"
+if os.environ.get("VERIF_COV"):          # tools/coverage.sh: which functions of the library do the checks execute at all
+    SAN_FLAGS += " --coverage"
 IMPL_CFLAGS = SAN_FLAGS + " -DCGNS_VERIF -w"
 HDF5_INC = "/usr/include/hdf5/serial"
 HDF5_LIBS = ["-L/usr/lib/x86_64-linux-gnu/hdf5/serial", "-lhdf5", "-lm", "-ldl", "-lz"]
